@@ -19,6 +19,7 @@ type specCtx struct {
 	results []Value
 	preAlloc Term // alloc array before the call (for fresh())
 	lenient  bool // locals without a value on this path are unconstrained (ensures-local)
+	facts    *[]Term // typing facts (slice lengths, integer ranges) of closed terms read while evaluating
 }
 
 type inlineCtx struct {
@@ -766,7 +767,7 @@ func (fv *FV) applyContract(e *Env, x *ast.CallExpr, u *FuncUnit, recv *Value, a
 	bind := fv.bindParams(u, recv, args)
 	pre := e.clone()
 	for _, cl := range c.Requires {
-		t := fv.specTerm(e, cl, &specCtx{old: pre, bind: bind})
+		t := fv.specTermO(e, cl, &specCtx{old: pre, bind: bind})
 		fv.obligeNamed(e, "pre", fmt.Sprintf("pre:%s.%s#%d", u.Name(), cl.Label, fv.siteOrd(u.Name()+cl.Label)), x,
 			fmt.Sprintf("precondition of %s: %s", u.Name(), cl.Text), t)
 		fv.assume(e, t)
@@ -796,7 +797,7 @@ func (fv *FV) applyContract(e *Env, x *ast.CallExpr, u *FuncUnit, recv *Value, a
 		}
 	}
 	for _, cl := range c.Ensures {
-		t := fv.specTerm(e, cl, &specCtx{old: pre, bind: bind, results: results, preAlloc: pre.alloc})
+		t := fv.specTermA(e, cl, &specCtx{old: pre, bind: bind, results: results, preAlloc: pre.alloc})
 		fv.assume(e, t)
 	}
 	switch len(results) {
@@ -1261,7 +1262,7 @@ func (fv *FV) inlineGhost(e *Env, x *ast.CallExpr, fn *types.Func) Value {
 	savedInfo, savedSpec := fv.info, fv.spec
 	ns := &specCtx{bind: nb}
 	if savedSpec != nil {
-		ns.old, ns.results, ns.preAlloc = savedSpec.old, savedSpec.results, savedSpec.preAlloc
+		ns.old, ns.results, ns.preAlloc, ns.facts, ns.lenient = savedSpec.old, savedSpec.results, savedSpec.preAlloc, savedSpec.facts, savedSpec.lenient
 	}
 	fv.info, fv.spec = g.pkg.TypesInfo, ns
 	if fv.ghostDepth > 20 {
